@@ -211,6 +211,8 @@ pub struct Workload<'a> {
     pub dstats: crate::monitors::DoneStats,
     /// result of the last run: the focus' own non-triviality verdict
     pub last_nontrivial: bool,
+    /// tier `miri`: runs executed so far (bounded by `Args::budget`)
+    pub miri_runs: usize,
 }
 
 impl<'a> Workload<'a> {
@@ -225,6 +227,7 @@ impl<'a> Workload<'a> {
             hstats: Default::default(),
             dstats: Default::default(),
             last_nontrivial: false,
+            miri_runs: 0,
         }
     }
 }
@@ -233,6 +236,16 @@ impl<'a> Workload<'a> {
     /// runs (doc, path) in both interpreters and applies the monitors; returns false if the run was discarded
     pub fn run_one(&mut self, doc: &Doc, f: &Flat, path: &[String], twice: bool) -> bool {
         self.last_nontrivial = false;
+        if self.args.miri() {
+            // inside the Miri interpreter a run costs seconds: a seed-dependent sample of the fixed corpus
+            // and of the generated cases, bounded per process
+            let h = crate::rng::fnv(&format!("{}:{}:{}", distinct_key(doc, path), self.args.seed, self.args.shard));
+            if self.miri_runs >= self.args.budget || h % (self.args.every as u64).max(1) != 0 {
+                self.rep.count("miri_cases_not_sampled", 1);
+                return false;
+            }
+            self.miri_runs += 1;
+        }
         let prequeue = self.prequeue && doc.dm != Dm::Null;
         let exp = expected_trace_mode(f, path, prequeue);
         if exp.diverged {
